@@ -1062,7 +1062,12 @@ def r12_linear_algebra(ctx):
 RULES["R01.4"] += " | entries-stay-in-place (who-may-permute): over every function of the property's modules, no Vec/slice operation that moves entries to other positions (reverse, swap, rotate, sort .., mem::swap of two entries) outside the table of sites confirmed on the pinned tree (common.PERMUTING_SITES)"
 
 
+RULES["R01.4"] += " | returned-as-computed: the same test for the four layer backwards and for Maxpool::forward (whose index record routes the gradient): no straight-line change of a result after the loops other than appends and the activation-derivative product"
+
+
 def run(ctx):
+    from .common import returned_as_computed
+    ctx.guard("R01.4", "returned-as-computed", returned_as_computed, ctx, "R01.4", {"src/dense.rs", "src/convolution.rs", "src/deconvolution.rs", "src/maxpool.rs"}, lambda p_, l_: l_ == "backward" or (l_ == "forward" and "Maxpool" in p_), ("hadamard", "add_inplace", "dropout"), 5)
     from .common import no_permuting_ops
     ctx.guard("R01.4", "entries-stay-in-place", no_permuting_ops, ctx, "R01.4", "layers-backward", {"src/dense.rs", "src/convolution.rs", "src/deconvolution.rs", "src/maxpool.rs"}, 6, None, lambda p_, l_: "backward" in l_ or "gradient" in l_ or l_ == "rotate")
     ctx.guard("R01.12", "linear-algebra", r12_linear_algebra, ctx)
